@@ -594,7 +594,7 @@ def V.showList : List V → String
     | _ => v.show ++ "," ++ V.showList vs
 end
 
-/-- the content of a reading-side leaf when the slots in `N` are nil (two elements per struct slice) -/
+/-- the content of a reading-side leaf when the slots in `N` are nil (three elements per struct slice: first, middle, last) -/
 def readLeaf (N : List String) (l : Leaf) : V :=
   let slot := joinPath l.path
   match l.decl.ty with
@@ -603,11 +603,12 @@ def readLeaf (N : List String) (l : Leaf) : V :=
     if N.contains slot then .zero
     else if e.isStructNamed then
       .elems [if N.contains (slot ++ "#0") then .zero else .leaf slot none,
-              if N.contains (slot ++ "#1") then .zero else .leaf slot none]
+              if N.contains (slot ++ "#1") then .zero else .leaf slot none,
+              if N.contains (slot ++ "#2") then .zero else .leaf slot none]
     else .leaf slot none
   | .slice e =>
     if N.contains slot then .zero
-    else if e.isStructNamed then .elems [.leaf slot none, .leaf slot none] else .leaf slot none
+    else if e.isStructNamed then .elems [.leaf slot none, .leaf slot none, .leaf slot none] else .leaf slot none
   | _ => .leaf slot none
 
 def properPrefixes (p : List String) : List (List String) :=
